@@ -637,6 +637,86 @@ pub fn run_c03(ctx: &Ctx) -> i32 {
             Err(e) => report_obs_err(ctx, "stall", idx, &case, &ObsErr::Enc(e), out),
         }
     });
+    // length hints that disagree with what is delivered: the library's own MemSource after the
+    // caller has already read k blocks from it (its hint keeps reporting the full length), an
+    // exhausted MemSource, and test sources whose hint is off (too large, too small, zero, huge).
+    // STREAMINFO must state what was consumed (total and MD5 of exactly the encoded samples), in
+    // both thread modes.
+    let nh = ctx.tier.pick(240, 6000);
+    run_cases(ctx, "hints", nh, &mut out, |idx, out| {
+        let mut rng = Rng::for_case(ctx.seed, "C03.hints", idx);
+        let mut case = gen_case(&mut rng, &Limits { max_samples: 6000, max_blocks: 8, max_block_size: 512, ..Limits::default() });
+        case.cfg.multithread = idx % 2 == 0;
+        case.cfg.workers = NonZeroUsize::new(1 + rng.usize_below(4));
+        let Ok(v) = enc::verified(&case.cfg) else { return };
+        let a = Arc::clone(&case.audio);
+        if idx % 3 == 0 {
+            // partially consumed MemSource
+            use flacenc::source::{FrameBuf, MemSource, Source};
+            let mut src = MemSource::from_samples(&a.samples, a.channels, a.bps, a.rate);
+            let nblocks = (a.frames() + case.block - 1) / case.block.max(1);
+            let k = if idx % 9 == 0 { nblocks + 1 } else { rng.usize_below(nblocks + 1) };
+            let mut consumed = 0usize;
+            if let Ok(mut fb) = FrameBuf::with_size(a.channels, case.block) {
+                for _ in 0..k {
+                    match src.read_samples(case.block, &mut fb) {
+                        Ok(n) => consumed += n,
+                        Err(_) => return,
+                    }
+                }
+            } else {
+                return;
+            }
+            let rest = Audio { channels: a.channels, bps: a.bps, rate: a.rate, samples: a.samples[(consumed * a.channels).min(a.samples.len())..].to_vec(), recipe: format!("{} minus the first {consumed} samples (read from the MemSource before encoding)", a.recipe) };
+            let rest_frames = rest.frames();
+            let rcase = Case { audio: Arc::new(rest), cfg: case.cfg.clone(), block: case.block, mode: FillMode::Int, hint: true };
+            match enc::encode_stream(&v, &mut src, case.block) {
+                Ok(stream) => match enc::to_bytes(&stream) {
+                    Ok(bytes) => {
+                        let rep = refdec::decode_stream(&bytes);
+                        let obs = Observed { stream, bytes, rep, delivered: rest_frames, reads: 0 };
+                        out.evaluations += 1;
+                        out.count("sub_hints_memsource_prefix_read");
+                        if consumed > 0 {
+                            out.distinct.insert(rcase.key() ^ 0x4171);
+                        }
+                        oracle_c03(ctx, "hints", idx, &rcase, &obs, out);
+                        oracle_c01(ctx, "hints", idx, &rcase, &obs, out);
+                    }
+                    Err(e) => report_obs_err(ctx, "hints", idx, &rcase, &ObsErr::Ser(e, stream_placeholder()), out),
+                },
+                Err(e) => report_obs_err(ctx, "hints", idx, &rcase, &ObsErr::Enc(e), out),
+            }
+        } else {
+            let mut src = TestSource::new(Arc::clone(&a), case.mode, true);
+            src.hint_bias = match idx % 7 {
+                0 => -(a.frames() as isize),
+                1 => 1,
+                2 => -1,
+                3 => case.block as isize,
+                4 => -(case.block as isize),
+                5 => 1 << 33,
+                _ => rng.below(2000) as isize - 1000,
+            };
+            case.hint = true;
+            match enc::encode_stream(&v, &mut src, case.block) {
+                Ok(stream) => match enc::to_bytes(&stream) {
+                    Ok(bytes) => {
+                        let rep = refdec::decode_stream(&bytes);
+                        let obs = Observed { stream, bytes, rep, delivered: src.delivered, reads: src.reads };
+                        out.evaluations += 1;
+                        out.count("sub_hints_biased");
+                        if a.frames() > 0 {
+                            out.distinct.insert(case.key() ^ 0x4172);
+                        }
+                        oracle_c03(ctx, "hints", idx, &case, &obs, out);
+                    }
+                    Err(e) => report_obs_err(ctx, "hints", idx, &case, &ObsErr::Ser(e, stream_placeholder()), out),
+                },
+                Err(e) => report_obs_err(ctx, "hints", idx, &case, &ObsErr::Enc(e), out),
+            }
+        }
+    });
     // the 36-bit total-samples field on its own (every tier): totals around 2^32 and up to 2^36-1
     // set through the public setter must be what the serialised STREAMINFO states
     run_cases(ctx, "total36", 24, &mut out, |idx, out| {
@@ -698,7 +778,7 @@ pub fn run_c03(ctx: &Ctx) -> i32 {
     let fin = Finish {
         level: "exploration",
         rule: "every observed stream's STREAMINFO is compared with the source's format, the number of samples the instrumented source handed over and the harness's own MD5 serialisation; 'variants' encodes one input 4 ways (1/many threads x integer/byte fill x with/without length hint); non-trivial = at least one frame",
-        assumptions: vec!["md-5 crate supplies the MD5 compression function; the serialisation hashed is the harness's own".into(), "a lying len_hint is the caller's bug and is not generated".into()],
+        assumptions: vec!["md-5 crate supplies the MD5 compression function; the serialisation hashed is the harness's own".into(), "length hints that disagree with the delivered samples are generated (sub-workload hints): STREAMINFO must state what was consumed".into()],
         exhaustive: None,
         floors: vec![],
         extra: cov_extra(),
